@@ -15,6 +15,8 @@ def suite_histories(suite, tier, seed):
         hs = fsgen.scripted()
         hs += fsgen.random_histories(seed + 7, 12 if quick else 200, 40 if quick else 60)
         return hs, dict(crash=120 if quick else 1000, remount=False)
+    if suite == 'mount':
+        return fsgen.mount_histories(seed, quick), dict(crash=0, remount=True)
     if suite == 'lfn':
         return fsgen.lfn_histories(seed, quick), dict(crash=0, remount=False)
     raise ToolError('unknown suite ' + suite)
